@@ -29,3 +29,43 @@ Theorem C05_transforms_keep_faces : forall (ph : @polyhedron R) v a m,
   snd (poly_rotate_z ph a) = snd ph /\ snd (poly_apply_matrix ph m) = snd ph /\
   length (fst (poly_translate ph v)) = length (fst ph) /\ length (fst (poly_apply_matrix ph m)) = length (fst ph).
 Proof. intros. repeat split; try reflexivity; apply map_length. Qed.
+
+(* ---- rotate_extrude and sweep: where every ring stands ---- *)
+From SCAD Require Import Base.Rot_proofs Geom.Dim3_proofs.
+(* copy k of the profile is the profile point (x, y) carried to (x cos t, x sin t, y), t = k * degrees / segments:
+   same radius, same height, in the half-plane at angle t; rings 0..segments (0..segments-1 for 360) *)
+Theorem C05_rotate_extrude_rings : forall (profile : list (pt2 R)) (degrees : R) (segments : Z) ph d2 d3,
+  rotate_extrude profile degrees segments = Some ph ->
+  let n := length profile in
+  let last := if Reqb degrees 360 then (Z.to_nat segments - 1)%nat else Z.to_nat segments in
+  length (fst ph) = ((last + 1) * n)%nat /\
+  forall k j, (k <= last)%nat -> (j < n)%nat ->
+    nth (k * n + j) (fst ph) d3 = revolve_pt (nth j profile d2) (degrees / IZR segments * IZR (Z.of_nat k)).
+Proof. exact rotate_extrude_rings. Qed.
+Theorem C05_revolve_keeps_radius_and_height : forall p ang,
+  x3 (revolve_pt p ang) * x3 (revolve_pt p ang) + y3 (revolve_pt p ang) * y3 (revolve_pt p ang) = x2 p * x2 p /\ z3 (revolve_pt p ang) = y2 p /\
+  x3 (revolve_pt p ang) * dsin ang - y3 (revolve_pt p ang) * dcos ang = 0.
+Proof. intros p ang. destruct (revolve_pt_radius_height p ang) as [A B]. split; [exact A|]. split; [exact B|apply revolve_pt_halfplane]. Qed.
+
+(* ring k of a sweep is the profile turned about Z by k times the per-step twist, carried by the frame that looks from
+   the previous to the next path point, and moved to path point k *)
+Theorem C05_sweep_rings : forall (profile : list (pt2 R)) (path : list (pt3 R)) (twist : R) (closed : bool) ph d2 d3,
+  sweep profile path twist closed = Some ph ->
+  let n := length profile in let len := length path in
+  let step := sweep_twist_angle path twist closed in
+  (2 <= len)%nat /\ length (fst ph) = (len * n)%nat /\
+  forall k j, (k < len)%nat -> (j < n)%nat ->
+    nth (k * n + j) (fst ph) d3 =
+    placed (sweep_frame path closed k) (if Nat.eqb k 0 then 0 else step * IZR (Z.of_nat k)) (path_at path (Z.of_nat k)) (nth j profile d2).
+Proof. exact sweep_rings. Qed.
+(* such a placement is a rigid copy lying in the plane through the path point perpendicular to the frame's forward
+   axis, for every frame that is an isometry; the frames of sweep are isometries whenever the two path points they look
+   between differ (also in the parallel / anti-parallel special cases) *)
+Theorem C05_placed_is_rigid_and_perpendicular : forall (m : mt4 R) theta c (p q : pt2 R), isometry m ->
+  (let d := pt3_sub (placed m theta c p) (placed m theta c q) in
+   pt3_dot d d = (x2 p - x2 q) * (x2 p - x2 q) + (y2 p - y2 q) * (y2 p - y2 q)) /\
+  pt3_dot (pt3_sub (placed m theta c p) c) (acts m (Pt3 0 0 1)) = 0.
+Proof. intros m theta c p q Hiso. split; [apply placed_rigid; exact Hiso|apply placed_perpendicular; exact Hiso]. Qed.
+Theorem C05_sweep_frames_are_isometries : forall path closed k,
+  fst (frame_pts path closed k) <> snd (frame_pts path closed k) -> isometry (sweep_frame path closed k).
+Proof. exact sweep_frame_isometry. Qed.
